@@ -31,3 +31,4 @@ func verifRespBodyIsProof() bool                         { return false }
 func verifNoLocksHeld() bool                             { return true }
 func verifBodyWellFormed() bool                          { return true }
 func verifBeginInvocation()                              {}
+func verifRunShutdownHooks()                             {}
